@@ -109,6 +109,21 @@ fn thin_strat(n_sites: usize) -> BoxedStrategy<TilingCase> {
         .boxed()
 }
 
+/// mixture of the uniform and thin families with dilute cells included (used by C02/C04 for valid states)
+pub fn state_family_strat() -> BoxedStrategy<TilingCase> {
+    let dilute = (0usize..7, any_shape())
+        .prop_flat_map(move |(group, shape)| {
+            let (area, _) = shape_area_radius(&shape);
+            let n = geom::group(group).ops.len() as f64;
+            (Just(group), Just(shape), 0.05..0.6f64, mixf(0.3, 1.0, vec![1.0, 0.5]), angle_for(group), proptest::collection::vec(site_mix(), 1..=64)).prop_map(move |(group, shape, frac, ratio, angle, sites)| {
+                let length = (n * area / (frac * ratio * angle.sin())).sqrt();
+                TilingCase { group, shape, length, ratio, angle, sites }
+            })
+        })
+        .boxed();
+    prop_oneof![2 => dilute, 1 => uniform_strat(64), 1 => thin_strat(64)].boxed()
+}
+
 pub struct Judged {
     pub nontrivial: bool,
     pub class: &'static str,
